@@ -1,21 +1,127 @@
 (* C01 - Clean channel: each accepted object arrives byte-exact, once, with its metadata. *)
 From FluteV Require Import Model.Partition Model.BlockEnc Model.SenderCtl Model.ObjRecv Model.Recv
-  Spec.RecvSpec Spec.SessionSpec Spec.C08Spec Proofs.BlockEncProofs Proofs.SenderProofs Proofs.RecvProofs Proofs.SessionProofs.
+  Spec.RecvSpec Spec.SessionSpec Spec.C07Spec Spec.C08Spec Proofs.BlockEncProofs Proofs.SenderProofs Proofs.RecvProofs Proofs.SessionProofs
+  Proofs.C08Full Proofs.C02Full Proofs.C01Full.
 Open Scope N_scope.
 
-(* Full statement (kept visible): composing the sender models (SenderCtl + BlockEnc) with the
-   receiver models (Recv + ObjRecv) over the identity channel, every accepted object satisfies
-   P_C01_object.  The composition theorem is not proved; P_C01_object is evaluated on every run
-   on real sender -> receiver sessions (all schemes, E, B, parity, cenc, signalling modes, publish
-   modes, interleave, multiplex, queues, transfer counts, receive-once, buffer/stream/file
-   sources), refusals at add_object are compared with the model of FileDesc::new, and the
-   recorded classes D20 (no-cache objects) and D35 (being-transferred mode forgets completed
-   objects) are reported.  What is proved are the mechanisms the delivery rests on: *)
-Definition C01_clean_channel_full : Prop :=
-  forall (given : ometa) (content : list N) (copies : N) (ws : list wrec),
-    (* ws = the writers of an accepted object in the composed run over the identity channel *) True ->
-    P_C01_object given content copies ws = true.
+(* Object-level composition theorem, PROVED for the No-Code scheme without content encoding
+   (Proofs/C01Full.v): the sender model (Model/BlockEnc.v: Block::new_from_buffer + BlockEncoder::read) and
+   the object-receiver model (Model/ObjRecv.v) over the identity channel.
+   Sender: any configuration FileDesc::new accepts (filedesc_accepts) with the No-Code scheme, any window
+   (interleave_blocks) >= 1, any non-empty buffer content of the announced length, either build profile,
+   last transfer (close-object flag on the last packet) or not.  ALL packets of one uninterrupted transfer
+   (enc_run until "nothing to send") are put on the wire by [to_apkt toi] - payload id = ((sbn & 0xFFFF) << 16)
+   | (esi & 0xFFFF) big endian as AlcNoCode::add_fec_payload_id writes it, B flag = close flag, codepoint 0,
+   no EXT_FTI - and fed in order to a fresh object receiver for [toi] that has the FDT entry attached
+   ([receive]; the entry carries an OTI with the sender's scheme, E and B, the transfer length, the MD5).
+   Premises about the environment, those of C02_nocode_recoverable_delivers: the builder stores the object,
+   open() and every write() succeed, the MD5 is absent or matches, L <= max_size_allocated, at most 4097
+   source blocks.  Premises about the wire: E < 2^16 (a u16 in the implementation) and
+   nocode_esi_fits: the large blocks of the partition have at most 65536 symbols, so that every ESI fits its
+   16-bit field (true whenever B <= 65536; FALSE configurations are accepted by FileDesc::new, see
+   C01_esi_wraps_refuted).
+   Conclusion: the object is Completed; the writer's log is exactly: builder, open, writes whose concatenation
+   is [content], one complete (ShapeDone); hence complete_exact, the executable C01 predicate with one
+   completed copy (the metadata are not modelled at this level: [m] is whatever the session level handed
+   to the writer) and the C02/C16 predicate.
+   Not covered: the other FEC schemes (decoders are oracles), content encodings, the empty object (C08 (4) and
+   C02Full.empty_object_behaviour), and the session level above or_attach (FDT transmission and parsing,
+   metadata, several objects, receive-once bookkeeping: evaluated on every run by P_C01_object on real
+   sender -> receiver sessions; classes D20 and D35 are recorded there). *)
+Theorem C01_clean_channel_nocode :
+  forall rep raptor_src c content oti E toi max fid files inst md5,
+  c_fec c = NoCode -> filedesc_accepts c = true -> c_tlen c = lenN content -> 0 < c_tlen c ->
+  (1 <= c_window c)%nat ->
+  c_e c < 65536 -> nocode_esi_fits c = true ->
+  oti_matches c oti -> fdt_entry_for files inst toi oti (c_tlen c) md5 ->
+  writer_accepts E toi -> writes_succeed E toi -> md5_good E content md5 ->
+  c_tlen c <= max -> nb_blocks_of oti (c_tlen c) <= 4097 ->
+  let blocks := blocks_of_buffer rep raptor_src c content in
+  let ps := pkts_of (enc_run (S (S (total_shards blocks))) c [] (est_init blocks)) in
+  let (o, cx) := receive E fid files inst toi max (map (to_apkt toi) ps) in
+  r_state o = Completed
+  /\ ShapeDone content (toi, 0%nat) toi cx
+  /\ forall m, complete_exact content (m, calls_of (toi, 0%nat) (c_log cx)) = true
+               /\ P_C01_object m content 1 [(m, calls_of (toi, 0%nat) (c_log cx))] = true
+               /\ P_C02_object true content [(m, calls_of (toi, 0%nat) (c_log cx))] = true.
+Proof. exact clean_channel_delivered. Qed.
+Print Assumptions C01_clean_channel_nocode.
 
+(* the same after any genuine packets without the close-object flag (any order, any duplication; e.g. what
+   is left of earlier transfers of the object): [delivered] is the conclusion above, [wire_pkts] the list
+   map (to_apkt toi) ps above *)
+Theorem C01_clean_channel_nocode_after_earlier_packets :
+  forall rep raptor_src c content oti E toi max fid files inst md5,
+  c_fec c = NoCode -> filedesc_accepts c = true -> c_tlen c = lenN content -> 0 < c_tlen c ->
+  (1 <= c_window c)%nat ->
+  c_e c < 65536 -> nocode_esi_fits c = true ->
+  oti_matches c oti -> fdt_entry_for files inst toi oti (c_tlen c) md5 ->
+  writer_accepts E toi -> writes_succeed E toi -> md5_good E content md5 ->
+  c_tlen c <= max -> nb_blocks_of oti (c_tlen c) <= 4097 ->
+  forall pre, Forall (fun q => genuine_pkt oti content q = true) pre ->
+              Forall (fun q => a_close_obj q = false) pre ->
+  delivered E fid files inst toi max content (pre ++ wire_pkts rep raptor_src c content toi).
+Proof. exact prefix_then_transfer_delivered. Qed.
+Print Assumptions C01_clean_channel_nocode_after_earlier_packets.
+
+(* the bridge between the two models: what the sender model emits satisfies, besides P_C08_transfer, the
+   No-Code strengthening P_C08_nocode_exact (no repair symbol, no padded symbol: P_C08_transfer tolerates
+   both, the premise genuine_pkt of C02/C03 neither), whatever the build profile ... *)
+Theorem C01_sender_nocode_exact : forall rep raptor_src c content,
+  c_fec c = NoCode -> 0 < c_tlen c ->
+  filedesc_accepts c = true -> c_tlen c = lenN content -> (1 <= c_window c)%nat ->
+  let blocks := blocks_of_buffer rep raptor_src c content in
+  let ps := pkts_of (enc_run (S (S (total_shards blocks))) c [] (est_init blocks)) in
+  P_C08_transfer c content None ps = true /\ P_C08_nocode_exact c content ps = true.
+Proof. exact nocode_transfer_full. Qed.
+Print Assumptions C01_sender_nocode_exact.
+
+(* ... and any packet list satisfying the two predicates is mapped by the wire bridge to packets that are
+   genuine for the receiver, with the same (sbn, esi) and close flags, covering every source symbol *)
+Theorem C01_wire_bridge : forall c content oti toi al as_ nal n,
+  c_fec c = NoCode -> filedesc_accepts c = true -> c_tlen c = lenN content -> 0 < c_tlen c ->
+  oti_matches c oti -> nocode_esi_fits c = true ->
+  block_partitioning (c_b c) (c_tlen c) (c_e c) = (al, as_, nal, n) ->
+  forall ps, P_C08_transfer c content None ps = true -> P_C08_nocode_exact c content ps = true ->
+  (Forall (fun q => genuine_pkt oti content q = true) (map (to_apkt toi) ps)
+   /\ map pid_of (map (to_apkt toi) ps) = map (fun p => (p_sbn p, p_esi p)) ps
+   /\ map a_close_obj (map (to_apkt toi) ps) = map p_close ps)
+  /\ (forall s i, s < n -> i < nominal_syms al as_ nal s -> In (s, i) (map (fun p => (p_sbn p, p_esi p)) ps))
+  /\ exists body lst, ps = body ++ [lst] /\ Forall (fun p => p_close p = false) body /\ p_close lst = c_closable c.
+Proof. exact wire_bridge. Qed.
+Print Assumptions C01_wire_bridge.
+
+(* the premise nocode_esi_fits (D39): E = 1, B = 65537, L = 65537 was accepted by FileDesc::new until the fix
+   (it is now refused: first conjunct); the
+   symbol with ESI 65536 goes out with payload id 00 00 00 00 = (sbn 0, esi 0), and no packet list whatsoever
+   put on the wire by to_apkt is recoverable for the receiver *)
+Example C01_esi_wraps_refuted :
+  filedesc_accepts wrap_cfg = false /\ oti_matches wrap_cfg wrap_oti
+  /\ block_partitioning (c_b wrap_cfg) (c_tlen wrap_cfg) (c_e wrap_cfg) = (65537, 65537, 0, 1)
+  /\ nocode_esi_fits wrap_cfg = false
+  /\ (let p := mk_pkt 0 65536 [9] true 65537 true in
+      pid_of (to_apkt 7 p) = (0, 0) /\ a_pidbytes (to_apkt 7 p) = [0; 0; 0; 0])
+  /\ forall toi ps, recoverable wrap_oti 65537 (map (to_apkt toi) ps) = false.
+Proof. exact esi_wraps_refuted. Qed.
+
+(* non-vacuity: the 5-byte object of C02 (E = 2, B = 2, two blocks, last symbol short) sent with two
+   interleaved blocks by a debug-profile sender, last transfer (true) and intermediate transfer (false):
+   the packets, their wire image, the delivery computed by the models, and the theorem applied *)
+Example C01_example_wire :
+  map (fun p => (p_sbn p, p_esi p, p_payload p, p_close p)) (transfer_pkts no_rep no_rsrc (ex_cfg true) ex_content)
+  = [(0, 0, [1; 2], false); (1, 0, [5], false); (0, 1, [3; 4], true)]
+  /\ map a_pidbytes (wire_pkts no_rep no_rsrc (ex_cfg true) ex_content 7) = [[0; 0; 0; 0]; [0; 1; 0; 0]; [0; 0; 0; 1]]
+  /\ summary 7 (receive env_ok 1 ex_files None 7 1000 (wire_pkts no_rep no_rsrc (ex_cfg true) ex_content 7))
+     = (Completed, [CallOpen true; CallWrite [1; 2; 3; 4] true; CallWrite [5] true; CallComplete])
+  /\ summary 7 (receive env_ok 1 ex_files None 7 1000 (wire_pkts no_rep no_rsrc (ex_cfg false) ex_content 7))
+     = (Completed, [CallOpen true; CallWrite [1; 2; 3; 4] true; CallWrite [5] true; CallComplete]).
+Proof. vm_compute. repeat split. Qed.
+
+Example C01_example_by_theorem : forall closable,
+  delivered env_ok 1 ex_files None 7 1000 ex_content (wire_pkts no_rep no_rsrc (ex_cfg closable) ex_content 7).
+Proof. exact ex_clean_channel_by_theorem. Qed.
+
+(* The mechanisms the delivery rests on, also for the other schemes: *)
 (* (1) sender side (C08): an uninterrupted transfer emits every encoding symbol of every block
    exactly once, in order, and ends normally *)
 Theorem C01_sender_emits_every_symbol : forall c SRC, (1 <= c_window c)%nat ->
